@@ -317,7 +317,9 @@ func genSub(r *vh.Rand, overlapping bool) SubCfg {
 		for i := 0; i < n; i++ {
 			s.Qs = append(s.Qs, append([]string{t}, queryShapes[r.Intn(len(queryShapes))]...))
 		}
-		s.Qs = dedupQs(s.Qs)
+		if !r.Chance(1, 3) { // sometimes the same path twice in one subscription
+			s.Qs = dedupQs(s.Qs)
+		}
 	case r.Chance(1, 3):
 		p := disjointPairs[r.Intn(len(disjointPairs))]
 		s.Qs = [][]string{append([]string{t}, p[0]...), append([]string{t}, p[1]...)}
@@ -481,6 +483,7 @@ func main() {
 	coalesce.VerifHook = func(point string) {
 		hookA(point)
 		hookWalkLock(point)
+		hookEmpty(point)
 	}
 	meta := vh.NewMeta("corpus; mode S: 2 writers x 1-3 STREAM subscribers x 1-4 writes (+0-3 pre-populated leaves) on a 4-leaf schema over 2 targets, every thread parked at the verif hook points (registered / before-walk / before-sync / before-next), in the feed callback and in Send, schedules chosen blindly (seeded random walks; depth-first enumeration of small configurations), every released step validated against the transition system inside Coq; mode A: the same shapes (overlapping queries allowed, up to 8 writes) free-running with seeded pauses at the same points, judged at quiescence. distinct = distinct (ops, subscriptions, schedule, streams); non-trivial = some subscriber received a response after its sync")
 	e := &emitter{dir: o.Out, cf: vh.NewCaseFile(), meta: meta, limit: 400}
